@@ -25,6 +25,10 @@ def checks_for(diff):
         out.add("C12")      # members of ensembles
     if any("page_hinkley" in f for f in files):
         out.add("C11")
+    if any(f.startswith("menelaus/injection") for f in files):
+        out.add("C15")      # the injector clause of C15
+    if any("md3" in f for f in files):
+        out.update({"C01", "C15"})
     return sorted(out), sorted(files)
 
 
